@@ -406,12 +406,13 @@ func (lb *LoadBalancer) processHealthCheckResponse(backend *Backend, resp *http.
 	}
 	wasUnhealthy := !backend.IsHealthy
 	backend.IsHealthy = true
-	backend.Mutex.Unlock()
 
-	// Update metrics to reflect healthy status
+	// Update metrics to reflect healthy status (under the backend's mutex, so
+	// that a racing ejection cannot be overwritten by this older "healthy")
 	if lb.metricsCollector != nil {
 		lb.metricsCollector.UpdateBackendHealth(backend.Name, true)
 	}
+	backend.Mutex.Unlock()
 
 	if wasUnhealthy {
 		logging.L().Info().Str("backend", backend.Name).Msg("backend marked healthy via active check")
@@ -552,12 +553,14 @@ func (lb *LoadBalancer) IsBackendHealthy(backend *Backend) bool {
 		// Double-check after acquiring write lock to prevent race condition
 		if !backend.IsHealthy && time.Now().After(backend.UnhealthyUntil) {
 			backend.IsHealthy = true
-			backend.Mutex.Unlock()
 
-			// Update metrics to reflect healthy status
+			// Update metrics to reflect healthy status. Published under the backend's
+			// mutex, like the ejection in MarkBackendUnhealthy, so that a racing
+			// ejection cannot be overwritten by this older "healthy".
 			if lb.metricsCollector != nil {
 				lb.metricsCollector.UpdateBackendHealth(backend.Name, true)
 			}
+			backend.Mutex.Unlock()
 
 			logging.L().Info().Str("backend", backend.Name).Msg("backend marked healthy")
 			return true
